@@ -51,6 +51,7 @@ def dispatch (prop : String) (line : String) : Verdict :=
     | some "qlatency" => QueueE.runLatency prop f obsS
     | some "qdroprace" => QueueE.runDropRace prop f obsS
     | some "qemitdrop" => QueueE.runEmitDrop prop f obsS
+    | some "qstop0" => QueueE.runStop0 prop f obsS
     | some "qdeep" => QueueE.runDeep prop f obsS
     | some "qfirst" => QueueE.runFirst prop f obsS
     | some "qnothread" => QueueE.runNoThread prop f obsS
